@@ -146,7 +146,7 @@ class C03(Property):
                              (2, "map"), (2, "filter"),
                              (5, "copy"), (2, "tee"), (3, "thub"),
                              (4, "hub_use"), (2, "next_it"), (2, "for"),
-                             (1, "thub_scalar")])
+                             (1, "thub_scalar"), (1, "rewrap")])
       if odd and op in ("map", "filter"):
         op = "copy"       # items that are None / falsy / not numbers
       if op in ("take", "peek"):
@@ -705,6 +705,19 @@ class _Ctx(object):
     nh = self.add("hub", got[1], model, uses=n, gen=h.gen + 1,
                   family=h.family)
     self.events.append("thub(h%d, %d) -> h%d" % (h.hid, n, nh.hid))
+
+  def op_rewrap(self, h, op):
+    # Stream(stream): a new Stream over the same data, the old one retired
+    ok, model = self._source_of(h, "rewrap")
+    got = self.call("rewrap", lambda: self.p.Stream(h.real))
+    if not ok:
+      self.expect("hub-rewrap", got, ("raise", "IndexError"),
+                  "Stream(exhausted hub h%d)" % h.hid)
+      return
+    if got[0] != "ok" or not isinstance(got[1], self.p.Stream):
+      raise _Mismatch("rewrap:return", "Stream(h%d) gave %r" % (h.hid, got))
+    nh = self.add("stream", got[1], model, gen=h.gen + 1, family=h.family)
+    self.events.append("Stream(h%d) -> h%d" % (h.hid, nh.hid))
 
   # plain iteration
   def op_next_it(self, h, op):
